@@ -18,6 +18,7 @@ value for that item and must rely on the correspondence run for it.
 import json, os, re, sys
 
 import translate_ctl
+import translate_export
 REPO = os.environ.get("NF_REPO", "/repo")
 SRC = os.path.join(REPO, "src")
 
@@ -27,6 +28,7 @@ class Unrecognised(Exception):
 
 
 translate_ctl.Unrecognised = Unrecognised
+translate_export.Unrecognised = Unrecognised
 
 
 def read(rel):
@@ -715,6 +717,9 @@ def gen():
     S = {"lib": lib, "v5": v5, "v7": v7, "v9": v9, "ipf": ipf}
     for key, f in translate_ctl.ITEMS:
         attempt(key, (lambda f=f: f(S)))
+    # ---- the V9 / IPFIX exporters, statement by statement (translate_export.py)
+    attempt("v9ExportProg", lambda: translate_export.translate(v9, "V9"))
+    attempt("ipExportProg", lambda: translate_export.translate(ipf, "IPFix"))
 
     # ---- protocol tables
     def f_proto():
@@ -982,6 +987,12 @@ def main():
     if old_ctl != text_ctl:
         with open(dest_ctl, "w") as f:
             f.write(text_ctl)
+    dest_exp = os.path.join(os.path.dirname(os.path.abspath(dest)), "GeneratedExport.lean")
+    text_exp = translate_export.emit_lean(norm["v9ExportProg"], norm["ipExportProg"])
+    old_exp = open(dest_exp).read() if os.path.exists(dest_exp) else None
+    if old_exp != text_exp:
+        with open(dest_exp, "w") as f:
+            f.write(text_exp)
     if os.environ.get("NF_WRITE_SNAPSHOT") == "1" and not problems:
         json.dump(norm, open(snap, "w"), indent=0, sort_keys=True)
     try:
@@ -990,7 +1001,7 @@ def main():
         summary["literals"] = len(lits)
     except Exception as e:
         summary["literals_error"] = repr(e)
-    summary["changed"] = (old_text != text) or (old_ctl != text_ctl)
+    summary["changed"] = (old_text != text) or (old_ctl != text_ctl) or (old_exp != text_exp)
     summary["items"] = sorted(out.keys())
     print(json.dumps(summary))
     for k, v in problems.items():
